@@ -1,3 +1,4 @@
+use std::marker::PhantomData;
 use std::path::{Path, PathBuf};
 
 use indexmap::IndexMap;
@@ -5,12 +6,13 @@ use indexmap::IndexMap;
 use crate::frontend::DarkluaResult;
 use crate::nodes::{
     Arguments, AssignStatement, Block, DoStatement, Expression, ExpressionType, FieldExpression,
-    FunctionAssignment, FunctionCall, FunctionName, FunctionStatement, Identifier, IfStatement,
-    LastStatement, Prefix, ReturnStatement, TableEntry, TableExpression, Token, TupleArguments,
-    TupleArgumentsTokens, TypeCastExpression, TypeName, UnaryExpression, UnaryOperator,
-    VariableAssignment,
+    FunctionAssignment, FunctionCall, FunctionExpression, FunctionName, FunctionStatement,
+    Identifier, IfStatement, LastStatement, Prefix, ReturnStatement, TableEntry, TableExpression,
+    Token, TupleArguments, TupleArgumentsTokens, TypeCastExpression, TypeName, UnaryExpression,
+    UnaryOperator, VariableAssignment,
 };
 use crate::process::utils::{generate_identifier, identifier_permutator, CharPermutator};
+use crate::process::{NodeProcessor, NodeVisitor};
 use crate::rules::bundle::RenameTypeDeclarationProcessor;
 use crate::rules::{Context, FlawlessRule, ShiftTokenLine};
 use crate::utils::lines;
@@ -235,9 +237,17 @@ impl BuildModuleDefinitions {
                         MODULE_CONTENT_ENTRY,
                     )));
 
+                let mut module_block = module.block;
+                let module_function = if uses_variable_arguments(&mut module_block) {
+                    // a module can read the arguments of its chunk (`...`)
+                    FunctionAssignment::from_name(LOCAL_MODULE_IMPL_NAME, module_block).variadic()
+                } else {
+                    FunctionAssignment::from_name(LOCAL_MODULE_IMPL_NAME, module_block)
+                };
+
                 DoStatement::new(Block::new(
                     vec![
-                        FunctionAssignment::from_name(LOCAL_MODULE_IMPL_NAME, module.block).into(),
+                        module_function.into(),
                         FunctionStatement::new(function_name, cached_block, Vec::new(), false)
                             .with_return_type(ExpressionType::new(FunctionCall::from_name(
                                 LOCAL_MODULE_IMPL_NAME,
@@ -273,6 +283,36 @@ impl BuildModuleDefinitions {
             TypeCastExpression::new(TableExpression::default(), TypeName::new("any")),
         ))
     }
+}
+
+/// Visits a block without entering the functions it defines.
+struct ChunkVisitor<T> {
+    _phantom: PhantomData<T>,
+}
+
+impl<T: NodeProcessor> NodeVisitor<T> for ChunkVisitor<T> {
+    fn visit_function_expression(_function: &mut FunctionExpression, _processor: &mut T) {}
+    fn visit_function_statement(_statement: &mut FunctionStatement, _processor: &mut T) {}
+    fn visit_local_function(_statement: &mut FunctionAssignment, _processor: &mut T) {}
+}
+
+#[derive(Default)]
+struct FindVariableArguments {
+    found: bool,
+}
+
+impl NodeProcessor for FindVariableArguments {
+    fn process_expression(&mut self, expression: &mut Expression) {
+        if matches!(expression, Expression::VariableArguments(_)) {
+            self.found = true;
+        }
+    }
+}
+
+fn uses_variable_arguments(block: &mut Block) -> bool {
+    let mut processor = FindVariableArguments::default();
+    ChunkVisitor::visit_block(block, &mut processor);
+    processor.found
 }
 
 fn transfer_trivia(mut receiving_token: Token, take_token: &Token) -> Token {
